@@ -5,6 +5,7 @@ package valset
 import (
 	"encoding/json"
 	"fmt"
+	"math/big"
 	"os"
 	"strconv"
 	"strings"
@@ -128,6 +129,47 @@ func TestReplay(t *testing.T) {
 		}
 		vs := initSet(initP, unit)
 		detail := map[string]interface{}{"init": initP, "hist": l.H, "unit": unit}
+		// the arbitrary-precision copy of the specification: at unit scale it must reproduce what TLC printed; at the
+		// large scale it states what the specification says there (see ref_test.go)
+		specCap := big.NewInt(1000000)
+		if capSpec > 0 {
+			specCap = big.NewInt(capSpec)
+		}
+		ref1 := newRefSet(initP, 1, specCap)
+		refU := newRefSet(initP, unit, big.NewInt(types.MaxTotalVotingPower))
+		refProp1, refPropU := 0, 0
+		for _, a := range acts {
+			if a.op == "inc" {
+				refProp1, refPropU = ref1.increment(a.times), refU.increment(a.times)
+				continue
+			}
+			var c1, cU []refCh
+			for _, c := range a.chs {
+				c1 = append(c1, refCh{c.A, big.NewInt(c.P)})
+				cU = append(cU, refCh{c.A, new(big.Int).Mul(big.NewInt(c.P), big.NewInt(unit))})
+			}
+			r1, n1 := ref1.copySet().update(c1, specCap)
+			if r1 != a.res {
+				res.Mismatch("infra:ref-transcription:result", fmt.Sprintf("the big-integer copy of the specification gives %s where TLC printed %s in %s", r1, a.res, string(raw)), detail)
+				return
+			}
+			ref1 = n1
+			_, refU = refU.copySet().update(cU, big.NewInt(types.MaxTotalVotingPower))
+		}
+		if len(ref1) != len(l.V) {
+			res.Mismatch("infra:ref-transcription:size", "the big-integer copy of the specification disagrees with TLC on "+string(raw), detail)
+			return
+		}
+		for i, w := range l.V {
+			if ref1[i].a != w.A || ref1[i].p.Int64() != w.P || ref1[i].prio.Int64() != w.Prio {
+				res.Mismatch("infra:ref-transcription:set", fmt.Sprintf("the big-integer copy of the specification gives %v where TLC printed %v in %s", ref1, l.V, string(raw)), detail)
+				return
+			}
+		}
+		if acts[len(acts)-1].op == "inc" && refProp1 != l.P {
+			res.Mismatch("infra:ref-transcription:proposer", "the big-integer copy of the specification disagrees with TLC on the proposer in "+string(raw), detail)
+			return
+		}
 		for k, a := range acts {
 			last := k == len(acts)-1
 			var before string
@@ -180,8 +222,20 @@ func TestReplay(t *testing.T) {
 				return
 			}
 		}
-		if la.op == "inc" && vs.GetProposer().Address != addr(l.P) {
+		if unit == 1 && la.op == "inc" && vs.GetProposer().Address != addr(l.P) {
 			res.Mismatch(pfx+"proposer", fmt.Sprintf("after %s: real proposer %x, specified %d", string(raw), vs.GetProposer().Address.Bytes()[19], l.P), detail)
+		}
+		if unit > 1 {
+			// at the large scale the specification speaks through its big-integer copy: exact priorities and proposer
+			for i, v := range vs.Validators {
+				if i >= len(refU) || v.Address != addr(refU[i].a) || big.NewInt(v.VotingPower).Cmp(refU[i].p) != 0 || big.NewInt(v.ProposerPriority).Cmp(refU[i].prio) != 0 {
+					res.Mismatch(pfx+"scaled:priority:"+la.op, fmt.Sprintf("after %s at unit %d: real set %s, specified (big-integer evaluation of ValidatorSet.tla) %v", string(raw), unit, snapshot(vs), refU), detail)
+					return
+				}
+			}
+			if la.op == "inc" && vs.GetProposer().Address != addr(refPropU) {
+				res.Mismatch(pfx+"scaled:proposer", fmt.Sprintf("after %s at unit %d: real proposer %x, specified %d", string(raw), unit, vs.GetProposer().Address.Bytes()[19], refPropU), detail)
+			}
 		}
 		if cmpPrio && vs.TotalVotingPower() != func() int64 {
 			var s int64
